@@ -546,6 +546,47 @@ def r8(ctx, r):
     bounds = getattr(ctx, "_c11_replay_bounds", None)
     if not bounds:
         raise AnalysisBroken("replay bounds not collected (C11-R5 did not run)")
+    # expiry values: the replay applies only 'plausible' epoch milliseconds (ms > 0 …); every value a writer journals must be one,
+    # or the sentinel — a deadline journalled as ms <= 0 is ignored on replay and the key comes back after a crash
+    from ..finite import compile_expr, NotPure
+    te = [g for g in fb.in_file(KVF) if g.ok and last(g.name) == "toEpochMs"]
+    if len(te) != 1:
+        raise AnalysisBroken("toEpochMs: %d definitions" % len(te))
+    rets = common.returns(te[0])
+    inits = {dv["d"]: dv for e in te[0].stmts() if e.node.get("k") == "decl" for dv in e.node["vars"]}
+    r.instance()
+    okv, why = True, ""
+    for e in rets:
+        v = strip_casts(e.node.get("v") or {})
+        free = sorted({x["n"] for x in walk(v) if x.get("k") == "var"})
+        if v.get("k") in ("mcall", "call"):
+            okv, why = False, "the raw millisecond count of the time point (any sign)"
+            continue
+        try:
+            fnv, _t, _c = compile_expr(v, free)
+        except NotPure as ex:
+            raise AnalysisBroken("toEpochMs: return value `%s` not evaluable (%s)" % (show(v)[:40], ex))
+        import itertools
+        dom = [-2 ** 62, -86400000, -1, 0, 1, 2, 1700000000000, 2 ** 62]
+        for vals in itertools.product(dom, repeat=len(free)):
+            if fnv(*vals) <= 0:
+                okv, why = False, "%s for %s" % (fnv(*vals), dict(zip(free, vals)))
+                break
+    r.expect(okv, te[0], rets[0] if rets else None, "journalled expiry the replay ignores", "toEpochMs can return %s, and the writers journal it as the record's expiry: the replay applies only ms > 0 (isPlausibleEpochMs) and ignores "
+             "the record otherwise — expireAt(key, time_point{}) hides the key in memory, but after a crash before the eviction worker's 'D' record it is back, eternal" % why, okdesc="every journalled expiry is > 0")
+    wl = [g for g in fb.in_file(KVF) if g.ok]
+    nexp = 0
+    for g in wl:
+        for e in g.stmts():
+            n = e.node
+            if n.get("k") == "mcall" and n.get("callee") == KV + "::writeLogEntry" and len([a for a in n.get("args", []) if not a.get("def")]) >= 4:
+                a = strip_casts(strip_wrappers(n["args"][3]))
+                nexp += 1
+                r.instance()
+                r.expect((a.get("k") in ("call", "mcall") and last(a.get("callee", "")) == "toEpochMs") or "NO_EXPIRY" in show(a), g, e, "expiry journalled raw", "%s journals the expiry `%s`, not through toEpochMs / the sentinel" % (short(g.name), show(a)[:40]),
+                         okdesc="%s: expiry through toEpochMs" % short(g.name))
+    if nexp < 3:
+        raise AnalysisBroken("only %d journal writes with an expiry found" % nexp)
     need = {"keyLen": lim["key"], "valLen": lim["value"], "totalLen": 1 + 4 + lim["key"] + 8 + 4 + lim["value"] + 4}
     for sym, n in need.items():
         r.instance()
